@@ -1,6 +1,7 @@
 import Pep508.Driver.Marker
 import Pep508.Model.MarkerParse
 import Pep508.Model.ReqParse
+import Pep508.Model.ReqShow
 import Pep508.Model.Dnf
 import Pep508.Model.Interner
 import Pep508.Model.Kind
@@ -147,6 +148,23 @@ def runReq (args : List String) : String :=
             s!" else:{showErrKind other.kind}:{other.start}:{other.len}"
       s!"calls={calls}\tthen={fin}"
     | _, _, _ => "bad-op"
+  | _ => "bad-op"
+
+/-- `showreq <name> <extras ;-separated hex or -> <kind: none | s:<hex;hex…> | u:<hex>> <marker hex or none>`:
+    `Display for Requirement` over already rendered components -/
+def runShowReq (args : List String) : String :=
+  match args with
+  | [name, extras, kind, marker] =>
+    let hexList := fun (s : String) => if s == "-" then some [] else (s.splitOn ";").mapM charsOfHex
+    let k : Option ShowKind :=
+      if kind == "none" then some .none
+      else if kind.startsWith "s:" then (hexList (kind.drop 2).toString).map .specs
+      else if kind.startsWith "u:" then (charsOfHex (kind.drop 2).toString).map .url
+      else none
+    let m : Option (Option (List Char)) := if marker == "none" then some none else (charsOfHex marker).map some
+    match charsOfHex name, hexList extras, k, m with
+    | some n, some ex, some k, some m => hexOfChars (showReq ⟨n, ex, k, m⟩)
+    | _, _, _, _ => "bad-op"
   | _ => "bad-op"
 
 /-- `expand <text> <vars> <cwd>`: `expand_env_vars` -/
